@@ -129,6 +129,9 @@ func c02RunSys(c *Ctx, reqs []c02Req, legacy map[int]uint64) error {
 			j++
 		}
 		group := reqs[i:j]
+		// the peers' clock moves on between requests, by seconds or by minutes: what a nonce is worth is measured against the
+		// sender's newest accepted nonce, never against a clock
+		w.Peer.Now += []int64{0, 1, 49, 51, 120, 3600}[c.Rng.Intn(6)]
 		script := func(r c02Req) string {
 			if r.BodyOK {
 				return "put,k" + strconv.Itoa(r.Sender) + ",v"
@@ -220,7 +223,7 @@ func c02RunSys(c *Ctx, reqs []c02Req, legacy map[int]uint64) error {
 }
 
 func genC02(c *Ctx) error {
-	c.Notes["rule"] = "(system histories: a quarter start with one or two senders whose nonce record is still in the old one-number format, which is also replayed; tasks call batched and non-batched methods) direct: all sequences up to the given length over 11 boundary values (offsets 0,+-1, ttl-1, ttl, ttl+1 above and below, 12/14 digits) fed to setNonce from the empty window, plus random clustered sequences; system: histories of signed requests of 3 senders through batchExecute and executeTasks with chosen nonces, replays and failing bodies. Non-trivial: at least one accept and one reject (direct) / at least one replayed (sender, nonce) pair (system)."
+	c.Notes["rule"] = "(system histories: the peers clock moves on between requests by 0-3600 s; a quarter start with one or two senders whose nonce record is still in the old one-number format, which is also replayed; tasks call batched and non-batched methods) direct: all sequences up to the given length over 11 boundary values (offsets 0,+-1, ttl-1, ttl, ttl+1 above and below, 12/14 digits) fed to setNonce from the empty window, plus random clustered sequences; system: histories of signed requests of 3 senders through batchExecute and executeTasks with chosen nonces, replays and failing bodies. Non-trivial: at least one accept and one reject (direct) / at least one replayed (sender, nonce) pair (system)."
 	B := c02Base
 	vals := []uint64{B, B + 1, B - 1, B + c02TTL - 1, B + c02TTL, B + c02TTL + 1,
 		B - (c02TTL - 1), B - c02TTL, B - (c02TTL + 1), 999999999999, 10000000000000}
